@@ -4,7 +4,8 @@
 (the corpus is the concatenation of `320 20260929 tcvgold`, `120 20260930 tcvgoldx` — captured after the generator learnt
 name_in_config spellings that sort differently from the parameter names — and `70 20261001 tcvgoldd dotted` — config file names with dots
 in the stem, half of them in name mode — and `60 20261002 tcvgoldp` — after parameter names that are prefixes of one another
-(`lr`, `lr2`) joined the generator; all filtered by tools/filter_golden.py)"""
+(`lr`, `lr2`) joined the generator — and the `Meta.task_group` lines of `80 20261003 tcvgoldm` — ModuleTask/DoubleModuleTask classes
+whose Meta also carries a task_group; all filtered by tools/filter_golden.py)"""
 import json, logging, os, random, shutil, sys, tempfile, warnings
 from pathlib import Path
 warnings.filterwarnings('ignore'); logging.disable(logging.CRITICAL); os.environ['TQDM_DISABLE'] = '1'
